@@ -13,6 +13,15 @@ NCPU = os.cpu_count() or 4
 GOENV = dict(os.environ, GOFLAGS='-mod=mod', GOPROXY='off', GOSUMDB='off', GOTOOLCHAIN='local')
 
 
+def _die_with_parent():
+    """Child processes (TLC JVMs, the harness) are killed when the driver dies, however it dies."""
+    try:
+        import ctypes, signal
+        ctypes.CDLL('libc.so.6').prctl(1, signal.SIGKILL)   # PR_SET_PDEATHSIG
+    except Exception:
+        pass
+
+
 class Infra(Exception):
     """The machinery failed: exit 2, never a verdict."""
 
@@ -49,7 +58,7 @@ def tlc(workdir, module, cfg, workers=None, timeout=1800, env=None, extra=()):
     e = dict(os.environ)
     if env:
         e.update(env)
-    p = subprocess.run(cmd, cwd=workdir, env=e, capture_output=True, text=True)
+    p = subprocess.run(cmd, cwd=workdir, env=e, capture_output=True, text=True, preexec_fn=_die_with_parent)
     shutil.rmtree(meta, ignore_errors=True)
     if p.returncode == 124:
         raise Infra('TLC timed out: ' + ' '.join(cmd))
@@ -115,7 +124,7 @@ def replay(vh, family, scen_path, trace_path, seed, workers=None, extra=(), env=
     e = dict(GOENV)
     if env:
         e.update(env)
-    p = subprocess.run(cmd, capture_output=True, text=True, env=e)
+    p = subprocess.run(cmd, capture_output=True, text=True, env=e, preexec_fn=_die_with_parent)
     if p.returncode != 0:
         raise Infra('replay failed:\n' + p.stdout[-2000:] + p.stderr[-4000:])
     return p.stdout
@@ -158,10 +167,12 @@ def validate(workdir, tspec, tcfg, traces, jobs=None, timeout=1800):
         if os.path.exists(of):
             os.remove(of)
         meta = tempfile.mkdtemp(prefix='meta-', dir=workdir)
-        env = dict(os.environ, TRACE_FILE=tf, OUT_FILE=of)
+        # the trace monitors hold one chunk of traces in memory: a few GB of heap are plenty, and eight JVMs
+        # with the default (a quarter of the RAM each) have exhausted the machine before
+        env = dict(os.environ, TRACE_FILE=tf, OUT_FILE=of, JAVA_TOOL_OPTIONS=(os.environ.get('JAVA_TOOL_OPTIONS', '') + ' -Xmx4g').strip())
         lf = open(os.path.join(workdir, 'tlc-trace%d.log' % k), 'w')
         p = subprocess.Popen(['timeout', str(timeout), 'tlc', '-workers', '1', '-metadir', meta, '-config', tcfg, tspec],
-                             cwd=workdir, env=env, stdout=lf, stderr=subprocess.STDOUT)
+                             cwd=workdir, env=env, stdout=lf, stderr=subprocess.STDOUT, preexec_fn=_die_with_parent)
         procs.append((p, of, lf, meta, k))
     viol, drift, stats = [], [], collections.Counter()
     for p, of, lf, meta, k in procs:
